@@ -29,7 +29,9 @@ Record assertion := mkA {
   a_timestamp : option Z;                        (* Timestamp() when the type has one *)
   a_headers : list (bytes * bytes);              (* the string-valued headers, incl. type *)
   a_content : bytes;                             (* the signed bytes *)
-  a_sig : bytes                                  (* the base64-decoded signature *)
+  a_sig : bytes;                                 (* the base64-decoded signature *)
+  a_sig_core : bytes                             (* the same OpenPGP signature packet with its UNHASHED subpacket area
+                                                    emptied: the part signature verification reads (driver projection) *)
 }.
 
 Fixpoint assoc (k : bytes) (m : list (bytes * bytes)) : option bytes :=
@@ -81,7 +83,7 @@ Section Check.
         beq (k_account k) (a_authority a)
         && valid_assuming k earliest latest
         && can_sign k a
-        && verify (k_id k) (a_content a) (a_sig a)
+        && verify (k_id k) (a_content a) (a_sig_core a)
         && match a_timestamp a with Some t => valid_at k t | None => true end
     end.
 
@@ -101,21 +103,21 @@ Definition clock_earliest (c : clock) : Z := match c with CNow t => t | CEarlies
 Definition clock_latest (c : clock) : option Z := match c with CNow t => Some t | CEarliest _ => None end.
 
 (* decoded = the (possibly mutated) encoded assertion still decodes; a = what it decodes to (ignored otherwise);
-   signed = key id, content and decoded signature of the assertion as the signer produced it;
+   signed = key id, content and signature core of the assertion as the signer produced it; sig0 = its decoded signature;
    accepted = Database.Check returned nil; added = Database.Add returned nil and Find then returns the same content *)
 Inductive case :=
 | CCheck (trusted stored : list akey) (c : clock) (decoded : bool) (a : assertion) (signed : bytes * bytes * bytes)
-         (accepted added : bool).
+         (sig0 : bytes) (accepted added : bool).
 
 Definition model_accept (x : case) : bool :=
   match x with
-  | CCheck tr st c decoded a signed _ _ =>
+  | CCheck tr st c decoded a signed _ _ _ =>
       decoded && check (ideal_verify signed) tr st (clock_earliest c) (clock_latest c) a
   end.
 
 Definition mismatch (x : case) : bool :=
   match x with
-  | CCheck _ _ _ _ _ _ accepted added => negb (Bool.eqb (model_accept x) accepted) || negb (Bool.eqb accepted added)
+  | CCheck _ _ _ _ _ _ _ accepted added => negb (Bool.eqb (model_accept x) accepted) || negb (Bool.eqb accepted added)
   end.
 
 (* The property on the observed behaviour, written without `check`/`find_key`: an accepted assertion decodes, is
@@ -133,7 +135,7 @@ Definition key_admits (c : clock) (a : assertion) (k : akey) : bool :=
 
 Definition monitor_fail (x : case) : bool :=
   match x with
-  | CCheck tr st c decoded a (k0, c0, s0) accepted added =>
+  | CCheck tr st c decoded a (k0, c0, _) s0 accepted added =>
       (accepted && negb (decoded && a_supported a && beq (a_sign_key a) k0 && beq (a_content a) c0 && beq (a_sig a) s0
                          && existsb (key_admits c a) (tr ++ st)))
       || (added && negb accepted)
